@@ -187,7 +187,7 @@ def _run(chk):
     common.quiet_trackpy()
     chk.coq()
     rng = chk.rng
-    n = 160 if chk.tier == 'quick' else 1500
+    n = 160 if chk.tier == 'quick' else 2500
     cases = corpus()
     for k in range(n):
         if rng.random() < 0.12:
